@@ -342,8 +342,10 @@ func genCacheRound(r rng, prop string) *cacheRound {
 	}
 	rd.level = pick(r, []int{0, 1, 1, 2, 2, 3})
 	rd.focus = vshim.NKinds
-	if r.chance(0.4) {
-		rd.focus = vshim.Kind(r.intn(int(vshim.NKinds)))
+	if r.chance(0.5) {
+		// mostly the kinds that open a window between two adjacent operations of one call
+		rd.focus = pick(r, []vshim.Kind{vshim.KLoad, vshim.KLoad, vshim.KLoad, vshim.KStore, vshim.KAfterStore, vshim.KAfterCAS, vshim.KAfterUnlock,
+			vshim.KLock, vshim.KCondWait, vshim.KBroadcast, vshim.KAdd, vshim.KCAS, vshim.Kind(r.intn(int(vshim.NKinds)))})
 	}
 	rd.procs = pick(r, []int{1, 2, 4, 16, 16})
 	rd.polling = r.chance(0.5)
@@ -495,6 +497,36 @@ func runLinzCache(a *args, res *result) {
 		r := newRng(a.seed, uint64(i)*8+5)
 		if a.prop == "C06" && i%4 == 3 {
 			closedScenario(r, res, i)
+			continue
+		}
+		if i%12 == 5 {
+			vshim.SetVirtual(true)
+			vshim.SetVNow(epoch)
+			sp := cacheSpec{Flavor: pick(r, cacheFlavors), Ctor: "New", OptMask: 1 | 2, DefExp: time.Hour, Interval: 0, NKeys: 2048}
+			if a.prop == "C12" {
+				sp.Flavor = pick(r, cacheFlavors[:2])
+			}
+			for rep := 0; rep < 8; rep++ {
+				c := newCache(sp)
+				ownStorm(r, res, i, sp.Flavor, c.Get, func(k int, v any) { c.Set(k, v, time.Hour) }, c.Delete)
+			}
+			continue
+		}
+		if i%16 == 7 {
+			vshim.SetVirtual(true)
+			vshim.SetVNow(epoch)
+			sp := cacheSpec{Flavor: pick(r, cacheFlavors), Ctor: "New", OptMask: 1 | 2, DefExp: time.Hour, Interval: 0, NKeys: 4096}
+			if a.prop == "C12" {
+				sp.Flavor = pick(r, cacheFlavors[:2])
+			}
+			c := newCache(sp)
+			stableStorm(r, res, i, sp.Flavor, c.Get, func(k int, v any) {
+				if k%2 == 0 {
+					c.SetForever(k, v)
+				} else {
+					c.Set(k, v, time.Hour)
+				}
+			}, c.Delete)
 			continue
 		}
 		if (a.prop == "C09" && i%5 == 4) || (a.prop != "C09" && a.prop != "C06" && i%16 == 15) {
